@@ -1846,6 +1846,10 @@ func (p *scionPacketProcessor) processOHP() disposition {
 		// TODO parameter problem -> invalid path
 		return errorDiscard("error", errMalformedPath)
 	}
+	if int(s.PayloadLen) != len(s.Payload) {
+		// As for any other path type, the payload length must match the actual packet length.
+		return errorDiscard("error", errBadPacketSize)
+	}
 
 	// OHP leaving our IA
 	if p.ingressFromLink == 0 {
